@@ -41,6 +41,9 @@ def run(ctx, rep) -> None:
     scs += H.gen_scenarios(ctx.seed, 40 if ctx.quick else 1500, 'consistency') + H.gen_scenarios(ctx.seed, 40 if ctx.quick else 1500, 'finalizer')
     scs += [sc_ for sc_ in H.gen_scenarios(0, 1600, 'finalizer') if sc_['id'] == 'finalizer-0-1507']        # the history in which F31 was found
     scs += [sc_ for sc_ in H.gen_scenarios(4, 40, 'consistency') if sc_['id'] == 'consistency-4-32']          # ... and F21
+    tl = H.tlc_scenarios(ctx.seed + 2, 40 if ctx.quick else 800)     # histories and handler outcomes drawn by TLC (-simulate on Sim_Handling)
+    rep.extra['tlc_generated_histories'] = len(tl)
+    scs += tl
     traces, verdicts = _family.run_traces(rep, scs, 'converge', nontrivial=lambda f: bool(f & FEATURES))
     tail = 0
     for t in traces:
